@@ -1033,3 +1033,101 @@ func conjKey(conj []*Term) string {
 	}
 	return sb.String()
 }
+
+// probeBoundary is the last resort after a solver verdict "unknown" on an
+// assertion: starting from the last model of the path it varies one variable
+// at a time over boundary values (powers of two and ten and their neighbours,
+// extremes, small numbers) and evaluates the whole conjunction concretely. A
+// hit is a genuine counterexample (it is replayed natively like any other);
+// no hit leaves the obligation inconclusive - probing never turns unknown into pass.
+func (in *Interp) probeBoundary(conj []*Term) Model {
+	ts := in.ts
+	base := Model{}
+	for k, v := range in.path.LastModel {
+		base[k] = v
+	}
+	holds := func(m Model) bool {
+		memo := map[uint32]*Term{}
+		for _, c := range conj {
+			r := ts.Eval(c, m, memo)
+			if !r.IsConst() || !r.Bool() {
+				return false
+			}
+		}
+		return true
+	}
+	if holds(base) {
+		return base
+	}
+	varSet := map[uint32]*Term{}
+	var collect func(t *Term, seen map[uint32]bool)
+	collect = func(t *Term, seen map[uint32]bool) {
+		if t.Op == OConst || seen[t.ID] {
+			return
+		}
+		seen[t.ID] = true
+		if t.Op == OVar {
+			varSet[t.ID] = t
+			return
+		}
+		for i := 0; i < int(t.N); i++ {
+			collect(t.A[i], seen)
+		}
+	}
+	seen := map[uint32]bool{}
+	// only the variables of the negated assertion (last conjunct) are varied
+	collect(conj[len(conj)-1], seen)
+	ids := make([]uint32, 0, len(varSet))
+	for id := range varSet {
+		ids = append(ids, id)
+	}
+	sort.Slice(ids, func(i, j int) bool { return ids[i] < ids[j] })
+	budget := 200000
+	for _, id := range ids {
+		v := varSet[id]
+		if v.S.K != KBV {
+			continue
+		}
+		w := int(v.S.W)
+		mask := ^uint64(0)
+		if w < 64 {
+			mask = (uint64(1) << uint(w)) - 1
+		}
+		var cands []uint64
+		if w <= 8 {
+			for x := uint64(0); x <= mask; x++ {
+				cands = append(cands, x)
+			}
+		} else {
+			add := func(x uint64) {
+				for _, d := range []uint64{0, 1, ^uint64(0)} {
+					y := x + d
+					cands = append(cands, y&mask, (-y)&mask)
+				}
+			}
+			for k := 0; k < w; k++ {
+				add(uint64(1) << uint(k))
+			}
+			p10 := uint64(1)
+			for k := 0; k < 20; k++ {
+				add(p10)
+				p10 *= 10
+			}
+			add(0)
+			add(base[id])
+			cands = append(cands, mask, mask>>1, (mask>>1)+1)
+		}
+		old := base[id]
+		for _, c := range cands {
+			if budget--; budget < 0 {
+				return nil
+			}
+			base[id] = c
+			if holds(base) {
+				return base
+			}
+		}
+		base[id] = old
+	}
+	return nil
+}
